@@ -920,39 +920,81 @@ def _pow2(e):
     return [2.0 ** e, 0.0]
 
 
-def gen_request(rng, avail, force=None):
+def gen_request(rng, avail, streams, force=None):
     """how the user asks for calibration: strict (fully qualified names of products that exist), lenient ('all',
-    'default', the stream, bare product types - products without solutions listed before / between / after the
-    present ones, repeated names, qualified names mixed in), or strict naming a product without solutions."""
-    missing = [t for t in DOC_TYPES if t not in avail]
+    'default', a stream, bare product types - products without solutions listed before / between / after the
+    present ones, repeated names, qualified names mixed in), or strict naming a product without solutions.
+    avail: the <stream>.<type> names that have solutions (in a fixed order)."""
+    missing = [s_ + '.' + t for s_ in streams for t in DOC_TYPES if s_ + '.' + t not in avail]
     kind = force or rng.choice(['strict'] * 6 + ['group'] * 3 + ['types'] * 7 + ['mixed'] * 2 + ['strict_missing'])
     if kind == 'strict_missing' and not missing:
         kind = 'types'
+    if kind in ('strict', 'mixed') and not avail:
+        kind = 'types'
     if kind == 'strict':
-        req = ['l1.' + t for t in avail]
+        req = list(avail)
         rng.shuffle(req)
     elif kind == 'group':
-        return rng.choice(['all', 'default', 'l1']), kind
+        return rng.choice(['all', 'default'] + list(streams)), kind
     elif kind == 'types':
         req = rng.sample(DOC_TYPES, rng.randint(1, 5))
-        if missing and rng.random() < 0.6:
-            # a type without solutions listed BEFORE one that has them
-            m, a = rng.choice(missing), rng.choice(avail)
-            req = [x for x in req if x not in (m, a)]
-            k = rng.randint(0, len(req))
-            req.insert(k, m)
-            req.insert(rng.randint(k + 1, len(req)), a)
+        mt = sorted({n.split('.')[1] for n in missing})
+        at = sorted({n.split('.')[1] for n in avail})
+        if mt and at and rng.random() < 0.6:
+            # a type without solutions (in some stream) listed BEFORE one that has them
+            m, a = rng.choice(mt), rng.choice(at)
+            if m != a:
+                req = [x for x in req if x not in (m, a)]
+                k = rng.randint(0, len(req))
+                req.insert(k, m)
+                req.insert(rng.randint(k + 1, len(req)), a)
         if rng.random() < 0.2:
             req.insert(rng.randint(0, len(req)), rng.choice(req))
     elif kind == 'mixed':
-        req = rng.sample(DOC_TYPES, rng.randint(1, 3)) + ['l1.' + t for t in rng.sample(avail, rng.randint(1, len(avail)))]
+        req = rng.sample(DOC_TYPES, rng.randint(1, 3)) + rng.sample(avail, rng.randint(1, len(avail)))
         if rng.random() < 0.3:
-            req.append('l1')
+            req.append(rng.choice(list(streams)))
         rng.shuffle(req)
     else:
-        req = ['l1.' + t for t in avail] + ['l1.' + rng.choice(missing)]
+        req = list(avail) + [rng.choice(missing)]
         rng.shuffle(req)
     return (','.join(req) if rng.random() < 0.5 else req), kind
+
+
+def gen_l2(rng, T, F, ants, chan_w, cf, p_zero):
+    """A self-cal stream with its OWN channelisation (1 .. F+2 channels, own centre and bandwidth), antenna and
+    polarisation order: gain-type products only, constant in time per input, with NaN / inf / zero solutions."""
+    n_ant = len(ants)
+    n_cal = rng.choice([1, 2, 3, F, F + 1, F + 2])
+    antlist = list(ants)
+    rng.shuffle(antlist)
+    if n_ant > 2 and rng.random() < 0.12:
+        antlist = antlist[:-1]             # an antenna without self-cal solutions: no product of the stream is usable
+    products = {}
+    for t in rng.sample(['GPHASE', 'GPHASE', 'GAMP_PHASE', 'G'], rng.randint(1, 2)):
+        if t in products:
+            continue
+        exps = [[rng.randint(-2, 2) for _ in range(n_ant)] for _ in range(2)]
+        cexp = [rng.randint(-1, 1) for _ in range(n_cal)]
+        with_chans = n_cal > 1 and rng.random() < 0.6
+        pa = [(p, a) for p in range(2) for a in range(len(antlist))]
+        dead = rng.choice(pa) if rng.random() < p_zero * 0.5 else None
+        nan_in = rng.choice(pa) if rng.random() < 0.2 else None
+        events = []
+        for dump in sorted(rng.sample(range(-1, T), rng.randint(1, min(3, T + 1)))):
+            def val(p, a, k):
+                if (p, a) == nan_in or rng.random() < 0.05:
+                    return 'inf' if rng.random() < 0.3 else None
+                return [0.0, 0.0] if (p, a) == dead else _pow2(exps[p][a] + (cexp[k] if with_chans else 0))
+            if with_chans:
+                arr = [[[val(p, a, k) for a in range(len(antlist))] for p in range(2)] for k in range(n_cal)]
+            else:
+                arr = [[val(p, a, 0) for a in range(len(antlist))] for p in range(2)]
+            events.append([dump, arr])
+        products[t] = events
+    return dict(antlist=antlist, pol_ordering=rng.choice([['v', 'h'], ['h', 'v']]),
+                center_freq=cf + rng.choice([-1, 0, 0, 1]) * chan_w * rng.choice([1, 0.5]),
+                bandwidth=F * chan_w * rng.choice([1, 1, 2]), n_chans=n_cal, products=products)
 
 
 def gen_v4(rng, tier='quick', force=None):
@@ -1073,11 +1115,22 @@ def gen_v4(rng, tier='quick', force=None):
                products=products)
     if parts:
         cal['parts'] = parts
-    applycal, req_kind = gen_request(rng, types, force.get('request'))
+    out_streams = {'l1': cal}
+    if force.get('l2') or rng.random() < 0.3:
+        out_streams['l2'] = gen_l2(rng, T, F, ants, chan_w, cf, p_zero)
+    probe = dict(cal=cal, ants=ants, **({'cal2': out_streams['l2']} if 'l2' in out_streams else {}))
+    avail = sorted(available_products(probe), key=lambda nm: (nm.split('.')[0], DOC_TYPES.index(nm.split('.')[1])))
+    applycal, req_kind = gen_request(rng, avail, list(out_streams), force.get('request'))
     # one to three targets (self-cal type gains are interpolated per target)
     tg = [[0, 0]]
-    for d in sorted(rng.sample(range(1, T), rng.choice([0, 0, 1, 2]) if T > 2 else 0)):
+    for d in sorted(rng.sample(range(1, T), rng.choice([0, 1, 1, 2]) if T > 2 else 0)):
         tg.append([d, rng.choice([k for k in range(3) if k != tg[-1][1]])])
+    # every new target starts with a slew and a track (katdal aligns target changes with the scan starts)
+    acts = []
+    for k, (d, _) in enumerate(tg):
+        acts.append([d, 'slew'])
+        if d + 1 < (tg[k + 1][0] if k + 1 < len(tg) else T):
+            acts.append([d + 1, 'track'])
     sel = {}
     if rng.random() < 0.7:
         a = rng.randrange(T)
@@ -1105,26 +1158,40 @@ def gen_v4(rng, tier='quick', force=None):
             b = rng.randint(a + 1, T)
             if all(e < b for e in first_hold):
                 pre['dumps'] = [a, b]
-    return dict(route='v4', T=T, F=F, ants=ants, chan_w=chan_w, cf=cf, cal=cal, applycal=applycal, request=req_kind,
-                targets=tg, select=sel,
+    return dict(route='v4', T=T, F=F, ants=ants, chan_w=chan_w, cf=cf, cal=cal,
+                **({'cal2': out_streams['l2']} if 'l2' in out_streams else {}),
+                applycal=applycal, request=req_kind, targets=tg, acts=acts, select=sel,
                 preselect=pre, seed=rng.randrange(10 ** 6), shuffle_bls=rng.random() < 0.5,
                 chunks=[compositions(rng, T), compositions(rng, F)],
                 index=[rng.choice([None, 1, 2]), rng.choice([None, 1, 2])])
 
 
-def available_products(cal):
-    """the <stream>.<type> products of the (single, 'l1') cal stream that have solutions in telstate."""
+def streams_of(vcfg):
+    """{'l1': the cal stream} plus {'l2': the self-cal stream} when the data set has one."""
+    out = {'l1': vcfg['cal']}
+    if vcfg.get('cal2'):
+        out['l2'] = vcfg['cal2']
+    return out
+
+
+def available_products(vcfg):
+    """the <stream>.<type> products that have solutions in telstate AND a solution index for every antenna of the
+    data set (a stream whose antlist lacks an antenna has no correction for its inputs: none of its products
+    is usable)."""
     out = set()
-    for key in cal['products']:
-        t = key.rstrip('0123456789') if key.rstrip('0123456789') in cal.get('parts', {}) else key
-        out.add('l1.' + t)
+    for stream, cal in streams_of(vcfg).items():
+        if not set(vcfg['ants']) <= set(cal['antlist']):
+            continue
+        for key in cal['products']:
+            t = key.rstrip('0123456789') if key.rstrip('0123456789') in cal.get('parts', {}) else key
+            out.add(stream + '.' + t)
     return out
 
 
 def expected_products(vcfg):
     """-> (expanded request, lenient, the products that must be applied | None for KeyError)"""
-    names, lenient = expand_request(vcfg['applycal'], ['l1'])
-    return names, lenient, select_expected(names, lenient, available_products(vcfg['cal']))
+    names, lenient = expand_request(vcfg['applycal'], list(streams_of(vcfg)))
+    return names, lenient, select_expected(names, lenient, available_products(vcfg))
 
 
 # --------------------------------------------------------------------------- corrections expected from the SOLUTIONS
@@ -1202,20 +1269,20 @@ def derive_input(t, evs, n, data_freqs, cal_freqs, targets, cases, mine):
 
 
 def expected_corrections(vcfg, inputs, data_freqs, dumps, names=None, targets=None, ctx=None):
-    """-> ({type: [input][dump] -> complex64 vector}, {type: [input][dump] -> bool vector}): the corrections the
+    """-> ({product: [input][dump] -> complex64 vector}, {product: [input][dump] -> bool vector}): the corrections the
     SOLUTIONS call for and the positions at which only "a non-zero number" is known (there the vector holds 1).
     targets: target index per loaded dump (self-cal type gains are interpolated per target).  With ctx the
     derivation is cross-checked against Model/ApplycalSol.v (wire 131) for every input."""
     from fixtures import c13cal
-    cal = vcfg['cal']
     n = dumps[1] - dumps[0]
-    cal_freqs = c13cal.cal_channel_freqs(cal)
-    index = {ant + pol: (p_i, a_i) for p_i, pol in enumerate(cal['pol_ordering'])
-             for a_i, ant in enumerate(cal['antlist'])}
     names = expected_products(vcfg)[2] if names is None else names
     out, masks, cases, mine = {}, {}, [], []
     for name in names or []:
-        t = name.split('.')[1]
+        stream, t = name.split('.')
+        cal = streams_of(vcfg)[stream]
+        cal_freqs = c13cal.cal_channel_freqs(cal)
+        index = {ant + pol: (p_i, a_i) for p_i, pol in enumerate(cal['pol_ordering'])
+                 for a_i, ant in enumerate(cal['antlist'])}
         kept = sorted(_kept_events(stitched_events(cal, t), dumps).items())
         per_input, per_mask = [], []
         for inp in inputs:
@@ -1230,8 +1297,8 @@ def expected_corrections(vcfg, inputs, data_freqs, dumps, names=None, targets=No
             arrs = [entries_to_arrays(r) for r in rows]
             per_input.append([a[0] for a in arrs])
             per_mask.append([a[1] for a in arrs])
-        out[t] = per_input
-        masks[t] = per_mask
+        out[name] = per_input
+        masks[name] = per_mask
     if ctx is not None and ctx.model_ok and cases:
         for k, mo in enumerate(ctx.model(cases)):
             if mo != mine[k]:
@@ -1248,9 +1315,9 @@ def check_harness_spec(ctx, vcfg, dumps_list, names=None):
     and the solutions seen by a data set holding dumps [a, b) (Model/Applycal.v `seen`)."""
     if not ctx.model_ok:
         return
-    cal = vcfg['cal']
     for name in (expected_products(vcfg)[2] or []) if names is None else names:
-        t = name.split('.')[1]
+        stream, t = name.split('.')
+        cal = streams_of(vcfg)[stream]
         st = stitched_events(cal, t)
         for a, b in dumps_list:
             mo = ctx.model([[13, [3, a, b, [[e, k] for k, (e, _) in enumerate(st)]]]])[0]
@@ -1350,18 +1417,22 @@ def _build(vcfg, arrays=None):
     ch = (tuple(vcfg['chunks'][0]), tuple(vcfg['chunks'][1]), (len(bls),))
     tgs = [v4.TARGET_A, v4.TARGET_B, v4.TARGET_C]
     kw = dict(targets=tuple((d, tgs[k]) for d, k in vcfg['targets'])) if vcfg.get('targets') else {}
+    if vcfg.get('acts'):
+        kw['acts'] = tuple((d, a) for d, a in vcfg['acts'])
     applycal = vcfg['applycal'] if isinstance(vcfg['applycal'], str) else list(vcfg['applycal'])
     x = v4.build_v4(**kw, T=T, F=F, ants=ants, seed=vcfg['seed'], bandwidth=F * vcfg['chan_w'], center_freq=vcfg['cf'],
                     bls_ordering=bls, arrays=arrays, chunks={'correlator_data': ch},
-                    telstate_hook=c13cal.cal_hook(vcfg['cal']), archived_override=['sdp_l0', 'cal'],
+                    telstate_hook=(c13cal.hooks(c13cal.cal_hook(vcfg['cal']), c13cal.l2_hook(vcfg['cal2']))
+                                   if vcfg.get('cal2') else c13cal.cal_hook(vcfg['cal'])),
+                    archived_override=['sdp_l0', 'cal'] + ([c13cal.L2_IMAGE_STREAM] if vcfg.get('cal2') else []),
                     open_kwargs=dict(applycal=applycal), tmp=v4.scratch_dir('c13'))
     return x, bls
 
 
-def _read_corrections(d, ptype, inputs, T):
+def _read_corrections(d, name, inputs, T):
     out = []
     for inp in inputs:
-        s = d.sensor.get('Calibration/Corrections/l1/%s/%s' % (ptype, inp))
+        s = d.sensor.get('Calibration/Corrections/%s/%s/%s' % (tuple(name.split('.')) + (inp,)))
         out.append([np.atleast_1d(np.asarray(s[t])).astype(np.complex64) for t in range(T)])
     return out
 
@@ -1370,12 +1441,13 @@ def _prods_from(corrs, names, cal_freqs):
     """per-type correction vectors ([input][dump] -> 1-D complex64) -> the products of a direct configuration."""
     prods = []
     for name in names:
-        ptype = name.split('.')[1]
-        corr = corrs[ptype]
+        stream, ptype = name.split('.')
+        corr = corrs[name] if name in corrs else corrs[ptype]
         cn = max(len(g) for per in corr for g in per)
-        prods.append(dict(name=name, stream='l1', kb=int(ptype in 'KB'),
+        cf = cal_freqs[stream] if isinstance(cal_freqs, dict) else cal_freqs
+        prods.append(dict(name=name, stream=stream, kb=int(ptype in 'KB'),
                           own=1 if ptype in 'KB' else (0 if cn == 1 else 2), form='v4',
-                          cal_freqs=[q_wire(f) for f in cal_freqs],
+                          cal_freqs=[q_wire(f) for f in cf],
                           corr=[[[complex_to_wire(z) or None for z in g] for g in per] for per in corr]))
     return prods
 
@@ -1480,7 +1552,7 @@ def run_v4(ctx, vcfg):
     pre = dict(vcfg.get('preselect') or {})
     shape_tag = ';parts=%d' % n_parts
     req_names, lenient, want_names = expected_products(vcfg)
-    avail = available_products(cal)
+    avail = available_products(vcfg)
     req_kind = vcfg.get('request', 'strict')
     # where do the requested products without solutions stand?
     miss = [k for k, nm in enumerate(req_names) if nm not in avail]
@@ -1506,9 +1578,9 @@ def run_v4(ctx, vcfg):
             raw = v4.reopen(x)
             T, F = vcfg['T'], vcfg['F']
             inputs = sorted({i for cp in bls for i in cp})
-            cal_freqs = c13cal.cal_channel_freqs(cal)
+            cal_freqs = {st: c13cal.cal_channel_freqs(c) for st, c in streams_of(vcfg).items()}
             got_names = list(d.applycal_products)
-            read = {name.split('.')[1]: _read_corrections(d, name.split('.')[1], inputs, T) for name in got_names}
+            read = {name: _read_corrections(d, name, inputs, T) for name in got_names}
             prods = _prods_from(read, got_names, cal_freqs)
             vis0, w0, f0 = raw.vis[:], raw.weights[:], raw.raw_flags[:]
             freqs = np.array(raw.channel_freqs)
@@ -1566,16 +1638,17 @@ def run_v4(ctx, vcfg):
         # (b) property, end to end: the spec evaluated on the corrections the SOLUTIONS call for, over the products
         # the REQUEST calls for
         check_harness_spec(ctx, vcfg, [(0, T)] + ([tuple(pre['dumps'])] if 'dumps' in pre else []), want_names)
-        for ptype in want:
-            if ptype not in read:
+        for pname in want:
+            if pname not in read:
                 continue
-            bad = _same_corrections(read[ptype], want[ptype], wmask[ptype])
+            bad = _same_corrections(read[pname], want[pname], wmask[pname])
             if bad is not None:
+                ptype = pname.split('.')[1] + (';stream=l2' if pname.startswith('l2.') else '')
                 ctx.disagree('route=v4;obs=corrections_from_solutions;type=%s;symptom=%s' % (ptype, bad[2]) + shape_tag,
-                             vcfg, dict(input=inputs[bad[0]], dump=bad[1], value=str(read[ptype][bad[0]][bad[1]])),
-                             dict(value=str(want[ptype][bad[0]][bad[1]])),
+                             vcfg, dict(input=inputs[bad[0]], dump=bad[1], value=str(read[pname][bad[0]][bad[1]])),
+                             dict(value=str(want[pname][bad[0]][bad[1]])),
                              'correction of %s for %s at dump %d differs from what the solutions call for'
-                             % (ptype, inputs[bad[0]], bad[1]))
+                             % (pname, inputs[bad[0]], bad[1]))
         scfg, ms = _spec_on(ctx, cfg, want, wmask, read, want_names, cal_freqs)
         compare(ctx, cfg_with(vcfg, scfg), impl, _restrict(ms, ix, [(s1, s2)]), 'v4', sides=('spec',),
                 spec_name='spec_from_solutions', tag=shape_tag + (';' + req_tag if got_names != want_names else ''))
@@ -1592,6 +1665,7 @@ def run_v4(ctx, vcfg):
         ctx.count('route=v4')
         ctx.count('v4_' + req_tag)
         ctx.count('v4_products_applied=%d' % len(got_names))
+        ctx.count('v4_streams=%s' % '+'.join(streams_of(vcfg)))
         ctx.count('v4_parts=%d' % n_parts)
         ctx.count('v4_targets=%d' % len(set(targets)))
         leaves = [leaf for key, evs in cal['products'].items() if key != 'K' for _, arr in evs
@@ -1628,10 +1702,15 @@ def run_preselected(ctx, vcfg, x, inputs, bls, cal_freqs, freqs, stored, full, w
     what = '+'.join(sorted(pre))
     applycal = vcfg['applycal'] if isinstance(vcfg['applycal'], str) else list(vcfg['applycal'])
     try:
+        # the target of every loaded dump as THIS data set sees it (katdal aligns target changes with scan starts,
+        # which may differ when only some dumps are loaded: an input of this property, not its subject)
+        targets_p = [int(v) for v in v4.reopen(x, dict(preselect=pk), dict(preselect=pk)).sensor[
+            'Observation/target_index']]
+        same_targets = [targets_p.index(v) for v in targets_p] == [targets[t0:t1].index(v) for v in targets[t0:t1]]
         dp = v4.reopen(x, dict(preselect=pk), dict(preselect=pk, applycal=applycal))
         got = dict(vis=dp.vis[:], weights=dp.weights[:], flags=dp.raw_flags[:])
         products = list(dp.applycal_products)
-        read = {name.split('.')[1]: _read_corrections(dp, name.split('.')[1], inputs, t1 - t0) for name in products}
+        read = {name: _read_corrections(dp, name, inputs, t1 - t0) for name in products}
     except Exception as e:
         ctx.disagree('route=v4pre;pre=%s;symptom=raises;exc=%s' % (what, type(e).__name__) + shape_tag, vcfg,
                      repr(e)[:300], 'a result', 'opening / reading a preselected data set with applycal raised')
@@ -1641,22 +1720,28 @@ def run_preselected(ctx, vcfg, x, inputs, bls, cal_freqs, freqs, stored, full, w
                      'applycal products of the preselected data set differ from those the request calls for')
     # corrections the solutions call for when only dumps [t0, t1) are loaded; they differ from those of the whole
     # data set only for time-interpolated gains whose solutions fall outside the loaded dumps (known finding C13-F3)
-    want, wmask = expected_corrections(vcfg, inputs, freqs[c0:c1], (t0, t1), want_names, targets[t0:t1], ctx)
+    want, wmask = expected_corrections(vcfg, inputs, freqs[c0:c1], (t0, t1), want_names, targets_p, ctx)
     wf, wfm = want_full
     gain_cause = False
-    for ptype in want:
+    for pname in want:
+        ptype = pname.split('.')[1]
         on_data = ptype not in GAIN_TYPES
-        cut = [[(g[c0:c1] if on_data else g) for g in per[t0:t1]] for per in wf[ptype]]
-        cutm = [[(g[c0:c1] if on_data else g) for g in per[t0:t1]] for per in wfm[ptype]]
-        same_mask = all(np.array_equal(a, b) for pa, pb in zip(wmask[ptype], cutm) for a, b in zip(pa, pb)) \
-            if [len(p) for p in wmask[ptype]] == [len(p) for p in cutm] else False
-        if _same_corrections(want[ptype], cut) is not None or not same_mask:
+        cut = [[(g[c0:c1] if on_data else g) for g in per[t0:t1]] for per in wf[pname]]
+        cutm = [[(g[c0:c1] if on_data else g) for g in per[t0:t1]] for per in wfm[pname]]
+        same_mask = all(np.array_equal(a, b) for pa, pb in zip(wmask[pname], cutm) for a, b in zip(pa, pb)) \
+            if [len(p) for p in wmask[pname]] == [len(p) for p in cutm] else False
+        if _same_corrections(want[pname], cut) is not None or not same_mask:
             gain_cause = gain_cause or ptype in GAIN_TYPES
         # a gain interpolated strictly between two different solutions: the fraction depends on where the solutions
         # outside the loaded dumps collapse to (the same finding)
-        if ptype in GAIN_TYPES and 'dumps' in pre and any(mk.any() for per in wmask[ptype] + cutm for mk in per):
+        if ptype in GAIN_TYPES and 'dumps' in pre and any(mk.any() for per in wmask[pname] + cutm for mk in per):
             gain_cause = True
+    selfcal = any(n.split('.')[1] in ('GPHASE', 'GAMP_PHASE') for n in want_names)
+    if not same_targets:
+        ctx.count('v4pre_targets_realigned_by_preselect')
     for nm in ('vis', 'weights', 'flags'):
+        if selfcal and not same_targets:
+            break                  # per-target gains on differently partitioned dumps: not comparable dump by dump
         a, b = got[nm], full[nm][t0:t1, c0:c1]
         eq = (a.shape == b.shape) and np.all(same_c(a, b) if nm == 'vis' else a == b)
         if not eq:
@@ -1810,7 +1895,7 @@ def run(ctx):
         # solutions in every product; a lenient request by bare types with a missing type before a present one;
         # 'all' / 'default' / the stream with some product types missing; free
         force = [dict(parts=True), dict(pre=['channels', 'both'][k // 6 % 2]), dict(zero=True),
-                 dict(request='types'), dict(request='group'), None][k % 6]
+                 dict(request='types', l2=k // 6 % 2), dict(request='group', l2=1 - k // 6 % 2), None][k % 6]
         run_v4(ctx, gen_v4(random.Random(ctx.rng.getrandbits(48)), ctx.tier, force))
     for _ in range(ctx.scale(12, 120)):
         run_v4(ctx, gen_invert(random.Random(ctx.rng.getrandbits(48)), ctx.tier))
